@@ -191,6 +191,20 @@ def run_case(case, ctx):
         _, _, viols, dom = MON["period_union"].judge((a, b))
     if not dom:
         ctx.count("generator_out_of_domain")
+    if dom and not viols and (len(a) + 2 * len(b)) % 3 == 0 and (a or b):
+        # the SAME event objects once more, after one of them was shortened through the public setters (a caller that keeps
+        # its lists and calls again): whatever a transform may have left behind on an object must not outlive the change
+        from datetime import timedelta
+        pool = a if a else b
+        e = pool[(len(a) * 7 + len(b)) % len(pool)]
+        half = e.duration / 2
+        e.duration = half - timedelta(microseconds=half.microseconds % 1000)
+        if (len(a) + len(b)) % 2 and e.duration > timedelta(0):
+            e.timestamp = e.timestamp + timedelta(milliseconds=1)
+            e.duration = e.duration - timedelta(milliseconds=1)
+        _, _, viols, dom2 = MON["filter_period_intersect" if case["fn"] == "intersect" else "period_union"].judge((a, b))
+        ctx.count("second_calls_on_the_same_objects_after_a_change")
+        viols = [(k + "(second call on the same objects after one was shortened)", d) for k, d in viols]
     return viols, dict(sig=sig, nontrivial=nontriv and dom)
 
 
